@@ -18,6 +18,7 @@ RULE = ('(A) sequences of push / insert / index assignment / compound index assi
         'inputs (+, +=, *, *=, list, dict, map, filter, sorted, reversed, shuffle, enumerate, items, keys, values, split, match_all, join, slices, literals embedding big values); '
         'strings built by doubling fed to split/map/match_all/enumerate. Non-trivial = a case in which a mutator ran on a container of >= 9998 elements or a node produced a '
         'container of >= 9998 elements; distinct = distinct (source, host container sizes).')
+RULE += ' Element-adding operations with an invalid index (text, None, NaN, infinity, a container) on full containers; lookups (get, in, index_of) on a full host defaultdict.'
 ASSUMPTIONS = ['B = max(10000, longest host-supplied list/dict/string, length of the source text (upper bound for any literal))',
                'element-adding = push, insert, index assignment, compound index assignment; on a container with len >= 10000 at entry they must raise ParserError and leave '
                'the container (length and element identities) unchanged; an overwrite of an existing slot that succeeded without growth would not be flagged, growth always is',
